@@ -2,13 +2,21 @@
 and which components ran real code vs. a stub (copied into the evidence)."""
 
 # property -> [(world module, variant kwargs for generate(), weight)]
+_STACKS = [('w_stack', {'stack': 'thrift'}, 1.0), ('w_stack', {'stack': 'mux'}, 1.0)]
 PLANS = {
+  'C01': _STACKS,
+  'C02': _STACKS,
+  'C12': _STACKS,
+  'C14': [('w_stack', {'stack': 'thrift'}, 2.0), ('w_stack', {'stack': 'mux'}, 1.0)],
+  'C18': _STACKS,
   'C07': [('w_pool', {}, 1.0)],
   'C10': [('w_timer', {}, 1.0)],
 }
 
 # property -> (quick runs, thorough runs); both are also bounded by a wall budget
 RUNS = {
+  'C01': (1500, 30000), 'C02': (1500, 30000), 'C12': (1500, 30000), 'C14': (1500, 30000),
+  'C18': (1200, 20000),
   'C07': (1200, 30000),
   'C10': (1500, 40000),
 }
